@@ -30,4 +30,13 @@ PY
   done
   git -C /repo checkout -- .
 done
-mv seeded/sweep.jsonl.tmp seeded/sweep.jsonl
+python3 - "${ids[@]}" <<'PY'
+import json,sys,os
+ids=set(sys.argv[1:])
+old=[l for l in open('seeded/sweep.jsonl')] if os.path.exists('seeded/sweep.jsonl') else []
+keep=[l for l in old if json.loads(l)['seed'] not in ids]
+new=[l for l in open('seeded/sweep.jsonl.tmp')]
+rows=sorted(keep+new, key=lambda l:(json.loads(l)['seed'], json.loads(l)['check']!=json.loads(l)['seed'][:3]))
+open('seeded/sweep.jsonl','w').writelines(rows)
+os.remove('seeded/sweep.jsonl.tmp')
+PY
